@@ -82,7 +82,7 @@ def run_txn(vh, behs, trace_out):
         bf = os.path.join(wd, "s.ndjson")
         with open(bf, "w") as fh:
             for b in behs:
-                fh.write(json.dumps({k: b[k] for k in ("id", "ops", "confirmId", "cancelId", "schedule") if k in b} | ({"free": True} if b.get("free") else {})) + "\n")
+                fh.write(json.dumps({k: b[k] for k in ("id", "ops", "confirmId", "cancelId", "schedule") if k in b} | ({"free": True} if b.get("free") else {}) | ({"press": True} if b.get("press") else {})) + "\n")
         tr = os.path.join(wd, "t.ndjson")
         skip, crashes = 0, []
         while skip < len(behs):
@@ -109,7 +109,7 @@ def run_txn(vh, behs, trace_out):
                 b = byid[e["b"]]
                 e.setdefault("panic", False)
                 e["exp"] = b.get("exp", dict(ret={}, rollbacks=0, slot="none", armed2=False))
-                e["free"] = bool(b.get("free"))
+                e["free"] = bool(b.get("free") or b.get("press"))
                 for k, v in dict(ops=b["ops"], confirmId=b["confirmId"], cancelId=b["cancelId"], fires=False, answers={}, errmsgs={}, rollbacks=0,
                                  devcalls=0, open="-", armed=False, hung=[], followed=0, drift="", refused="", seen=[], t1present=False, t2present=False).items():
                     e.setdefault(k, v)
@@ -147,6 +147,16 @@ def check(prop, tier, seed, replay):
                 rest = scheds[6000:]
                 rnd.shuffle(rest)
                 behs = scheds[:6000] + rest[:6000]
+            # pressure variants: schedules in which the expired timer waits for the manager's mutex before a Cancel / Confirm
+            # takes it; inside the first device call (the rollback) every parked goroutine is let go
+            def timer_waits_first(s):
+                t = [i for i, st in enumerate(s["schedule"]) if st[0] == "timer" and len(st) > 2 and st[2] == "timer.lock"]
+                c = [i for i, st in enumerate(s["schedule"]) if st[0] in ("cancel", "confirm", "set2") and st[1] in ("cancel.lock", "confirm.lock", "set.register")]
+                return bool(t) and bool(c) and t[0] < c[0]
+            cand = [s for s in scheds if timer_waits_first(s)]
+            rnd.shuffle(cand)
+            for s in cand[:(80 if tier == "quick" else 600)]:
+                behs.append(dict(s, id=s["id"] + "-press", press=True))
             # free-running repetitions (Go scheduler decides) for the combinations with all three operations
             for i in range(20 if tier == "quick" else 200):
                 c, k = rnd.choice(IDS[:2]), rnd.choice(IDS[:2])
